@@ -341,6 +341,14 @@ impl Cartesian<'_> {
             return Err("Stopped".into());
         }
 
+        // Now check all waypoints (including the interpolated ones) for collisions.
+        if trace
+            .par_iter()
+            .any(|waypoint| self.robot.collides(&waypoint.joints))
+        {
+            return Err("Collision on the planned stroke".into());
+        }
+
         Ok(trace)
     }
 
